@@ -364,6 +364,56 @@ def resow_case(c, tmp, idx):
     return rep, bad
 
 
+def two_crops_case(c, tmp, idx):
+    """ONE harvester that already holds data in memory sows TWO crops (disjoint parts of a grid); both are grown
+    and reaped by crops reloaded BY NAME (their farmer is the copy pickled at sow time, with the data it held
+    then).  Afterwards the file must hold the first harvest and both crops' data, as direct harvests would."""
+    import xyzpy
+    rng = c.rng
+    d = os.path.join(tmp, f"t{idx}")
+    os.makedirs(d)
+    fresh = rng.random() < 0.3
+    rep = {"stream": "two-crops-of-one-harvester-reaped-by-name", "fresh_process": fresh}
+
+    def fn(a, b):
+        return 100 * a + b
+
+    def mk(path):
+        return xyzpy.Harvester(xyzpy.Runner(fn, "out", fn_args=("a", "b")), data_name=path)
+    parts = [{"a": [1], "b": [5, 6]}, {"a": [2, 3], "b": [5, 6]}, {"a": [4], "b": [5, 6]}]
+    rng.shuffle(parts)
+    bad = []
+    try:
+        h = mk(os.path.join(d, "crop_side"))
+        h.harvest_combos(parts[0], verbosity=0)                    # the harvester now holds data in memory
+        for k in (1, 2):
+            h.Crop(name=f"tc{k}", parent_dir=d, batchsize=1).sow_combos(parts[k], verbosity=0)
+        for k in rng.sample([1, 2], 2):
+            if fresh:
+                out = os.path.join(d, f"out{k}.pkl")
+                p = subprocess.run([sys.executable, "-W", "ignore", "-c", RESOW_SNIPPET, f"tc{k}", d, out],
+                                   env=dict(os.environ, XV_VERIF=core.VERIF), capture_output=True, text=True,
+                                   timeout=300)
+                if p.returncode != 0:
+                    return rep, [("reloaded-process-failed", p.stderr[-300:])]
+            else:
+                crop = xyzpy.Crop(name=f"tc{k}", parent_dir=d)
+                crop.grow_missing(verbosity=0)
+                crop.reap()
+        other = mk(os.path.join(d, "direct_side"))
+        for part in parts:
+            other.harvest_combos(part, verbosity=0)
+        a, b = xyzpy.load_ds(os.path.join(d, "crop_side")), xyzpy.load_ds(os.path.join(d, "direct_side"))
+    except Exception as e:  # noqa
+        shutil.rmtree(d, ignore_errors=True)
+        return rep, [("farmer-crop-raised", f"{type(e).__name__}: {str(e)[:200]}")]
+    ok, why = ds_equal(b, a)
+    if not ok:
+        bad.append(("harvester-disk-differs", "two crops of one harvester reaped by name: " + why))
+    shutil.rmtree(d, ignore_errors=True)
+    return rep, bad
+
+
 def run(tier, seed):
     c = core.Check("C06", tier, seed)
     gen_st = core.regen()
@@ -395,6 +445,12 @@ def run(tier, seed):
                    sample=rep if i % 10 == 0 else None)
             c.count("farmer", "Harvester/prior-data"); c.count("prior", rep["prior"]); c.count("overwrite", rep["overwrite"])
             c.count("prior_outcome", "raised" if rep["direct_raised"] else "merged")
+            for key, msg in bad:
+                c.violation(key, msg, rep)
+        for i in range(6 if tier == "quick" and not c.broken else 40):
+            rep, bad = two_crops_case(c, tmp, i)
+            c.case(json.dumps(rep, sort_keys=True) + f"#{i}", nontrivial=True, sample=rep if i == 0 else None)
+            c.count("farmer", "Harvester/two-crops"); c.count("two_crops_fresh_process", rep["fresh_process"])
             for key, msg in bad:
                 c.violation(key, msg, rep)
         for i in range(16 if tier == "quick" and not c.broken else 120):
